@@ -281,7 +281,7 @@ fn run_check(args: &[String]) -> i32 {
     }
     let mut o = match prop.as_str() {
         "C10" => {
-            explanation = "order/duplicates of the list, repeated build(), clone, setter order with build() in between, field-by-field configuration, 16 threads and fresh processes (fresh hash seeds) on a hash-order-sensitive family: every variant must equal a fresh builder's output; outputs compared with the Lean model".into();
+            explanation = "order/duplicates of the list, repeated build(), clone, setter order with build() in between, field-by-field configuration, a fresh thread and a fresh thread that first built the same test cases under other class options, 16 threads and fresh processes (fresh hash seeds) on a hash-order-sensitive family: every variant must equal a fresh builder's output; outputs compared with the Lean model".into();
             custom::run_c10(&ctx, &mut rng, ctx.tier).0
         }
         "C12" => {
